@@ -21,7 +21,7 @@ RULE = (
     "Hypothesis cases: binary input (<=5/<=5 leaves), <=4 families (consistent leaf orders), free costs in {0..5} with hgt possibly infinite, one "
     "random valid ordered labelling and one random valid unordered labelling (top-down construction).  For every valid species mapping of the "
     "input (all of them up to 1500, else an evenly spaced deterministic subset): node_event of every node, cost() of the plain output, "
-    "reconciliation_cost(), labeling_cost(), cost() of the ordered and unordered labelled outputs == independent recount.  One case in 8 also "
+    "reconciliation_cost(), labeling_cost(), cost() of the ordered and unordered labelled outputs == independent recount; the same output objects evaluated again after every unit cost was changed in place must give the recount under the new costs.  One case in 8 also "
     "runs `reconcile` in-process (thl/ext_spfs/superdtl, any|all) and compares the printed 'Minimum cost' with the recount of each written "
     "solution.  evaluations = reconciliations compared.  Non-trivial case: >=3 object leaves, some mapping with >=2 event kinds and a labelling "
     "with >=1 charged segmental loss; distinct by SHA-1 of the case."
@@ -90,6 +90,30 @@ def check(case):
                 raise Violation(f"eval.labeling_cost.{tag}", observed=got_lc, expected=lc, extra={"mapping": m, "labelling": lab})
             if got_tot != rc + lc:
                 raise Violation(f"eval.cost.{tag}", observed=got_tot, expected=rc + lc, extra={"mapping": m, "labelling": lab})
+    # the same output objects evaluated again after the input's unit costs were changed in place
+    if mappings:
+        m = mappings[-1]
+        mo = {onode[k]: snode[v] for k, v in m.items()}
+        pat, counts = inst.rec_profile(m)
+        objs = [(None, pkg.guarded(ReconciliationOutput, inp, mo), None)]
+        for ordered, syn, lab in ((True, syn_o, lab_o), (False, syn_u, lab_u)):
+            objs.append((ordered, pkg.guarded(SuperReconciliationOutput, input=inp, object_species=mo, syntenies=syn, ordered=ordered), lab))
+        first = [pkg.guarded(o.cost) for _k, o, _l in objs]
+        c2 = {k: (v if v == INF else v + i + 1) for i, (k, v) in enumerate(sorted(inst.c.items()))}
+        from superrec2.model.reconciliation import EdgeEvent, NodeEvent
+        for key, value in c2.items():
+            inp.costs[getattr(NodeEvent, key) if hasattr(NodeEvent, key) else getattr(EdgeEvent, key)] = value
+        for (ordered, obj, lab), before in zip(objs, first):
+            exp = inst.profile_cost(counts, c2)
+            if ordered is not None:
+                exp = exp + times(c2["SEGMENTAL_LOSS"], labeling_losses(inst, pat, lab, ordered))
+            got = pkg.guarded(obj.cost)
+            if got != exp:
+                raise Violation("eval.cost.after-costs-changed-in-place", observed=got, expected=exp,
+                                extra={"kind": "plain" if ordered is None else ("ordered" if ordered else "unordered"),
+                                       "first_costs": inst.c, "second_costs": c2, "first_result": str(before), "mapping": m})
+        for key, value in inst.c.items():
+            inp.costs[getattr(NodeEvent, key) if hasattr(NodeEvent, key) else getattr(EdgeEvent, key)] = value
     labels = [f"obj={len(inst.oleaves)}", f"mappings={'<=10' if len(mappings) <= 10 else '<=100' if len(mappings) <= 100 else '>100'}"]
     if inst.c["HORIZONTAL_TRANSFER"] == INF:
         labels.append("hgt=inf")
